@@ -1726,3 +1726,59 @@ N('c12-impl-conditional-both-arms', 'C12', LANLIGHT,
 N('c18-brief-class-attribute', 'C18', SNAPSHOT,
   "        self._brief = False\n", "        pass\n",
   SNAPSHOT, "class Snapshot:\n", "class Snapshot:\n    _brief = False\n")
+
+# ------------------------------------------------------------------ round 5
+# / triage batch 3 rules
+PARAMHELP = 'bardolph/lib/param_helper.py'
+MATHMOD = 'bardolph/runtime/bardolph_math.py'
+
+B('c03-enter-routine-conditional', 'C03', 'R03.d', CALLSTACK,
+  "        self._top.vars = self._top.params\n",
+  "        if self._top.params:\n            self._top.vars = self._top.params\n")
+B('c04-cycle-turn-rgb-as-raw', 'C04', 'R04.l', LOOP,
+  "        code_gen.test_op(Operator.EQ, Register.UNIT_MODE, UnitMode.RAW)\n        marker = code_gen.if_true_start()\n        code_gen.push(65536)\n        code_gen.if_else(marker)\n        code_gen.push(360)\n",
+  "        code_gen.test_op(Operator.EQ, Register.UNIT_MODE, UnitMode.LOGICAL)\n        marker = code_gen.if_true_start()\n        code_gen.push(360)\n        code_gen.if_else(marker)\n        code_gen.push(65536)\n")
+N('c04-cycle-turn-noteq-form', 'C04', LOOP,
+  "        code_gen.test_op(Operator.EQ, Register.UNIT_MODE, UnitMode.RAW)\n        marker = code_gen.if_true_start()\n        code_gen.push(65536)\n        code_gen.if_else(marker)\n        code_gen.push(360)\n",
+  "        code_gen.test_op(Operator.NOTEQ, Register.UNIT_MODE, UnitMode.RAW)\n        marker = code_gen.if_true_start()\n        code_gen.push(360)\n        code_gen.if_else(marker)\n        code_gen.push(65536)\n")
+B('c06-assignment-declares-first', 'C06', 'R06.o', PARSE,
+  "        if not self._rvalue(dest_name):\n            return False\n        self._context.add_variable(dest_name)\n        return True",
+  "        self._context.add_variable(dest_name)\n        return self._rvalue(dest_name)")
+B('c06-index-var-declared-early', 'C06', 'R06.o', LOOP,
+  "        self._index_var = str(self.current_token)\n        return self.next_token()",
+  "        self._index_var = str(self.current_token)\n        context_stack.add_variable(self._index_var)\n        return self.next_token()")
+B('c09-clock-wait-unguarded', 'C09', 'R09.h', CLOCK,
+  "        if self._keep_going:\n            self._event.wait()\n", "        self._event.wait()\n")
+N('c09-clock-wait-early-return', 'C09', CLOCK,
+  "        if self._keep_going:\n            self._event.wait()\n        return self._keep_going",
+  "        if not self._keep_going:\n            return False\n        self._event.wait()\n        return self._keep_going")
+B('c16-param-list-ends-at-symbol', 'C16', 'R16.i', PARSE,
+  "                self._context.has_routine(str(self._current_token))):\n            name = str(self._current_token)\n            if routine.has_param(name):",
+  "                self._context.has_symbol(str(self._current_token))):\n            name = str(self._current_token)\n            if routine.has_param(name):")
+B('c18-power-line-not-ended', 'C18', 'R18.b', SNAPSHOT,
+  "        fmt = 'on \"{}\"\\n' if light.get_power() else 'off \"{}\"\\n'",
+  "        fmt = 'on \"{}\" ' if light.get_power() else 'off \"{}\" '")
+B('c20-explicit-path-stripped', 'C20', 'R20.p', WEBAPP,
+  "            if path[-3:] == \".ls\":\n                path = path[:-3]\n", "        if path[-3:] == \".ls\":\n            path = path[:-3]\n")
+N('c20-path-derivation-not-form', 'C20', WEBAPP,
+  "        if len(path) == 0:\n            path = script_config['file_name']\n            if path[-3:] == \".ls\":\n                path = path[:-3]\n        return path",
+  "        if not path:\n            path = script_config['file_name']\n            if path.endswith(\".ls\"):\n                path = path[:-3]\n        return path")
+B('c20-status-layout-float-width', 'C20', 'R20.o', SNAPSHOT,
+  "        layout = '{:>' + str(self._field_width * 4 + 1) + '}'", "        layout = '{:>' + str(self._field_width / 4 + 1) + '}'")
+B('c20-status-rule-str-times-float', 'C20', 'R20.o', SNAPSHOT,
+  "            self.append('-' * ((self._field_width) * 6 - 5))", "            self.append('-' * ((self._field_width) / 6 - 5))")
+N('c20-status-rule-floor-div', 'C20', SNAPSHOT,
+  "            self.append('-' * ((self._field_width) * 6 - 5))", "            self.append('-' * ((self._field_width * 12) // 2 - 5))")
+B('c20-status-power-and-zero', 'C20', 'R12.c', SNAPSHOT,
+  "        self._add_field('{:d}'.format(light.get_power() or 0))", "        self._add_field('{:d}'.format(light.get_power() and 0))")
+B('c18-text-snapshot-skips-base-start', 'C18', 'R18.f', SNAPSHOT,
+  "    def start_snapshot(self):\n        super().start_snapshot()\n        if not self._brief:", "    def start_snapshot(self):\n        if not self._brief:")
+B('c20-text-snapshot-skips-base-init', 'C20', 'R18.e', SNAPSHOT,
+  "    def __init__(self):\n        super().__init__()\n        self._field_width = 15", "    def __init__(self):\n        self._field_width = 15")
+B('c07-param16-nan-leaks', 'C07', 'R07.b', PARAMHELP,
+  "    return round(max(0, min(param, 0xffff)))", "    return round(max(min(param, 0xffff), 0))")
+N('c07-param16-bounds-first', 'C07', PARAMHELP,
+  "    return round(max(0, min(param, 0xffff)))", "    return round(max(0, min(0xffff, param)))")
+B('c07-matrix-cells-own-clamp', 'C07', 'R07.b', MATRIX,
+  "            raw_color.append(param_16(param))",
+  "            if param < 0.0:\n                param = 0\n            elif param > 65535.0:\n                param = 65535\n            else:\n                param = round(param)\n            raw_color.append(param)")
